@@ -200,6 +200,10 @@ def run(ck):
     ck.configs.add("K1")
     from .. import guards as _gas
     _gas.arm_store_before_suspend(ck, P, fields=("adler", "gzindex"))
+    # the gzip trailer is the CRC of all the data: the portable fallback of Crc32Fold::fold continues the running value (round 9)
+    from . import c09 as _c09s
+    _c09s.crc_start_flow(ck, P)
+    _c09s.start_value_uses(ck, P)
     n = tables.encoder_tables(ck, P, "CONST/enc-rfc")
     ck.extra["table_entries_compared"] = n
     ck.extra["exhaustive"] = True
